@@ -25,7 +25,7 @@ ID = "C06"
 LEVEL = "fault_enumeration"
 TIERS = {
     "quick": {"shards": 96, "examples": 6, "det_shards": 2},
-    "thorough": {"shards": 256, "examples": 6, "det_shards": 4},
+    "thorough": {"shards": 384, "examples": 6, "det_shards": 4},
 }
 RULE = ("case = (module, setting, fault set): for each generated valid module, every eligible position (thorough; a "
         "seeded stride of them in the quick tier) of each sampled fault kind {truncate, stray quote, invalid escape, "
